@@ -131,7 +131,8 @@ def create_utc_property(name:str, docs:str) -> property:
         if not isinstance(value, date):
             raise TypeError(f"{name} takes a datetime in UTC, not {value}")
         self.pop(name)
-        self.add(name, tzp.localize_utc(value))
+        # not every name is known to be a DATE-TIME (X-MOZ-...): encode explicitly
+        self.add(name, vDDDTypes(tzp.localize_utc(value)))
 
 
     return property(p_get, p_set, doc=docs)
